@@ -76,3 +76,134 @@ def all_objects(root, depth=0, acc=None):
         for v in root.items:
             all_objects(v, depth + 1, acc)
     return acc
+
+
+# -- abstract reader records for the DOM reader ---------------------------------------
+
+FULL_SEQUENCE = [('diffx', True), ('.preamble', False), ('.meta', False), ('.change', True), ('..preamble', True),
+                 ('..meta', False), ('..file', False), ('...meta', False), ('...diff', True), ('..file', True),
+                 ('...meta', False), ('.change', False), ('..file', False), ('...meta', False), ('...diff', False)]
+
+
+def capture_record_shapes(P, seq=None):
+    """Run the streaming reader abstractly (K1 stubs) and describe the records it yields."""
+    from sa.roles import ReaderRoles
+    from sa import k1
+    R = ReaderRoles(P)
+    table = P.fold_module_const('pydiffx.sections', 'VALID_SECTION_STATES')
+    K = k1.ReaderK1(P, R, table)
+    K.capture_templates()
+    seq = seq or FULL_SEQUENCE
+    res = K.run_sequence(list(seq))
+    recs = list(K.last_records)
+    if len(recs) < len(seq):
+        raise AnalysisError('reader yields %d records for %d sections' % (len(recs), len(seq)))
+    recs = recs[-len(seq):]
+    shapes = []
+    for (sid, dec), r in zip(seq, recs):
+        if not isinstance(r, ADict):
+            raise AnalysisError('reader yields a non-dict record')
+        shape = {}
+        for k, v in r.items.items():
+            if isinstance(v, ADict):
+                shape[k] = ('options', sorted(v.items))
+            elif isinstance(v, Unk):
+                shape[k] = ('unk', sorted(v.kinds) if v.kinds is not None else None)
+            else:
+                shape[k] = ('const', v)
+        shapes.append((sid, shape))
+    return shapes
+
+
+def materialise_record(sid, shape, open_options=True, index=0):
+    rec = ADict({}, name='record%d' % index)
+    for k, d in shape.items():
+        if d[0] == 'const':
+            rec.items[k] = d[1]
+        elif d[0] == 'unk':
+            kinds = d[1]
+            if kinds is not None and set(kinds) == {'bytes', 'str'}:
+                pass
+            u = Unk('%s:%s' % (sid, k), kinds=kinds, taint=['INPUT'])
+            if k == 'metadata':
+                u.kinds = frozenset(['dict', 'list', 'str', 'int', 'float', 'bool', 'NoneType'])
+                u.taint = frozenset(['INPUT', 'JSON'])
+            rec.items[k] = u
+        elif d[0] == 'options':
+            o = ADict({}, open_=open_options, taint=['INPUT', 'OPTKEY', 'OPTVAL'], name='options%d' % index)
+            o.valkinds = frozenset(['str', 'int'])
+            for key in d[1]:
+                if key == 'length':
+                    if sid in ('diffx', '.change', '..file'):
+                        continue
+                    o.items[key] = Unk('length', kinds=['int'], taint=['INPUT'])
+                elif key == 'version':
+                    o.items[key] = '1.0'
+            rec.items[k] = o
+    return rec
+
+
+class DomReaderHarness(object):
+    """Runs DiffXDOMReader.parse on abstract records (the streaming reader is
+    replaced by a stub that yields records of the captured shape)."""
+
+    def __init__(self, P, shapes=None, open_options=False):
+        self.P = P
+        self.D = DomRoles(P)
+        self.shapes = shapes or capture_record_shapes(P)
+        self.open_options = open_options
+        self.rcls = P.cls('pydiffx.dom.reader', 'DiffXDOMReader')
+        self.sr = P.cls('pydiffx.reader', 'DiffXReader')
+        self.parse = self.rcls.find_method('parse')
+        if self.parse is None:
+            raise AnalysisError('DiffXDOMReader.parse not found (anchor vanished)')
+
+    def install(self, I, shapes=None):
+        it = self.sr.find_method('iter_sections')
+        shapes = shapes or self.shapes
+
+        def stub(I_, fi, args, kwargs, node):
+            recs = [materialise_record(sid, shape, self.open_options, i) for i, (sid, shape) in enumerate(shapes)]
+            I_.emit('dom-records', node, {'records': recs})
+            return AList(recs)
+        I.stubs[it.qualname] = stub
+
+    def new_reader(self, I):
+        I.frames = [Frame(self.parse)]
+        return I.instantiate(self.rcls, [self.D.diffx], {}, None)
+
+    def run_parse(self, I, reader, name='in'):
+        from sa.values import AStream
+        stream = AStream(name)
+        I.frames = []
+        tree = I.call_function(self.parse, [reader, stream], {}, None, self_cls=self.rcls)
+        return tree, stream
+
+
+def containers(root):
+    """All mutable containers (ADict/AList) reachable from a tree, with a path description."""
+    out = {}
+
+    def walk(v, path, depth):
+        if depth > 8:
+            return
+        if isinstance(v, AObj):
+            if id(v) in out:
+                return
+            out[id(v)] = (v, path)
+            for k, x in v.attrs.items():
+                walk(x, '%s.%s' % (path, k), depth + 1)
+        elif isinstance(v, ADict):
+            if id(v) in out:
+                return
+            out[id(v)] = (v, path)
+            for k, x in v.items.items():
+                walk(x, '%s[%r]' % (path, k), depth + 1)
+        elif isinstance(v, AList):
+            if id(v) in out:
+                return
+            out[id(v)] = (v, path)
+            for i, x in enumerate(v.items):
+                walk(x, '%s[%d]' % (path, i), depth + 1)
+    walk(root, 'tree', 0)
+    return out
